@@ -182,6 +182,10 @@ def install(reg):
             out = ExpMat(M, a.D, lambda t: G(t), Region("fresh"), dt_int)
             out.pair_unique = dict(src=a, upos=upos, usi=usi, usj=usj, M=M)
             ex.last_pair_unique = out
+            hook = getattr(ex, "hooks", None)
+            hook = hook.get("after_pair_unique") if isinstance(hook, dict) else None
+            if hook:
+                hook(ex, out)
             return out
         return prev_unique(ex, args, kw, node)
 
